@@ -251,4 +251,11 @@ def replay(run, payload):
     av = scn['steps'][0]['argv']
     av = av[av.index('--') + 1:] if '--' in av else [a for a in av if not a.startswith('-')]
     args = [{'arg': a, 'kind': '?', 'entry': os.path.normpath(os.path.join(scn.get('cwd', '/'), a)), 'expect': '?'} for a in av]
-    judge(run, scn, {'args': args, 'mode': 'plain'}, res, scn['steps'][0].get('plan') or {}, 'fault')
+    plan = scn['steps'][0].get('plan') or {}
+    if case.get('key') == 'vanished-source-not-reported' or payload.get('key') == 'vanished-source-not-reported':
+        pairs, strays, orphans = putlib.new_trash_items(res['before'], o['after'])
+        if o.get('looping') or o['exit'] == 0 or strays or pairs:
+            run.fail('oracle', 'the entry vanished before the move: trash-put must report the failure and leave no .trashinfo behind',
+                     {'scenario': scn, 'exit': o['exit'], 'strays': strays, 'pairs': pairs}, key='vanished-source-not-reported', section='replay')
+        return
+    judge(run, scn, scn.get('judge_meta') or {'args': args, 'mode': 'plain'}, res, plan, 'fault')
